@@ -350,7 +350,7 @@ func (doc *T) addCallbackToSpec(c *CallbackRef, refNameResolver RefNameResolver,
 }
 
 func (doc *T) derefSchema(s *Schema, refNameResolver RefNameResolver, parentIsExternal bool) {
-	if s == nil || doc.isVisitedSchema(s) {
+	if s == nil || doc.isVisitedSchema(s, parentIsExternal) {
 		return
 	}
 
@@ -382,7 +382,7 @@ func (doc *T) derefHeaders(hs Headers, refNameResolver RefNameResolver, parentIs
 	for _, name := range componentNames(hs) {
 		h := hs[name]
 		isExternal := doc.addHeaderToSpec(h, refNameResolver, parentIsExternal)
-		if h.Value == nil || doc.isVisitedHeader(h.Value) {
+		if h.Value == nil || doc.isVisitedHeader(h.Value, parentIsExternal || isExternal) {
 			continue
 		}
 		doc.derefParameter(h.Value.Parameter, refNameResolver, parentIsExternal || isExternal)
@@ -476,7 +476,7 @@ func (doc *T) derefPaths(paths map[string]*PathItem, refNameResolver RefNameReso
 			for _, name := range componentNames(op.Callbacks) {
 				cb := op.Callbacks[name]
 				isExternal := doc.addCallbackToSpec(cb, refNameResolver, pathIsExternal)
-				if cb.Value != nil && !doc.isVisitedCallback(cb.Value) {
+				if cb.Value != nil && !doc.isVisitedCallback(cb.Value, pathIsExternal || isExternal) {
 					cbValue := (*cb.Value).Map()
 					doc.derefPaths(cbValue, refNameResolver, pathIsExternal || isExternal)
 				}
@@ -572,7 +572,7 @@ func (doc *T) InternalizeRefs(ctx context.Context, refNameResolver func(*T, Comp
 			isExternal := doc.addCallbackToSpec(cb, refNameResolver, false)
 			if cb != nil && cb.Value != nil {
 				cb.Ref = "" // always dereference the top level
-				if !doc.isVisitedCallback(cb.Value) {
+				if !doc.isVisitedCallback(cb.Value, isExternal) {
 					cbValue := (*cb.Value).Map()
 					doc.derefPaths(cbValue, refNameResolver, isExternal)
 				}
